@@ -219,6 +219,9 @@ def _replay(task):
                         return dict(step=k, problem="superpose is not a rigid motion")
                     # alignment quality on the selected atoms: no worse than the float64 Kabsch optimum (+ float32 slack);
                     # the exact optimality of the rotation is C06's business, the shadow adopts the moved coordinates
+                    # (planar / <= 3-atom alignment sets are C06's open finding rmsd:planar_alignment_set: only rigidity is checked here)
+                    if len(c) < 4 or min(np.linalg.svd(q[c] - q[c].mean(0), compute_uv=False)[2] for q in (S["xyz"][i].astype(np.float64), refrow.astype(np.float64))) < 1e-3:
+                        continue
                     best = _kabsch(S["xyz"][i], refrow, c)
                     dk = np.sqrt(((best[c] - refrow[c].astype(np.float64)) ** 2).sum(1).mean())
                     dr = np.sqrt(((T.xyz[i][c].astype(np.float64) - refrow[c]) ** 2).sum(1).mean())
